@@ -461,6 +461,53 @@ def run_long(case):
   return R(None, True, (i, L > 200))
 
 
+# -------------------------------------- several filter runs alive at once
+def gen_alive(run):
+  for i in range(6):
+    for who in ("same-object", "equal-filter", "other-filter"):
+      for order in ("alternate", "two-one"):
+        yield (i, who, order)
+
+
+def run_alive(case):
+  """Two runs alive together and consumed alternately (one filter object applied to two signals, two
+  equal filters, two different filters of the same shape): each run is its own difference equation."""
+  i, who, order = case
+  b, a = LONG_SHAPES[i]
+  L = 12
+  mkf = lambda bb, aa: ZFilter({k: (c if F(c).denominator != 1 else int(c)) for k, c in bb.items()},
+                               {k: (c if F(c).denominator != 1 else int(c)) for k, c in aa.items()})
+  def ref(bb, aa, x):
+    y = []
+    for n in range(len(x)):
+      acc = F(0)
+      for k, c in bb.items():
+        if n - k >= 0: acc += c * x[n - k]
+      for k, c in aa.items():
+        if k >= 1 and n - k >= 0: acc -= c * y[n - k]
+      y.append(acc / aa[0])
+    return y
+  x1 = [F(v) for v in lcg(L, seed=3)]
+  x2 = [F(v) for v in lcg(L, seed=8)]
+  b2 = {k: c * 3 for k, c in b.items()} if who == "other-filter" else b
+  try:
+    f1 = mkf(b, a)
+    f2 = f1 if who == "same-object" else mkf(b2, a)
+    o1, o2 = iter(f1([Q(v) for v in x1], zero=Q(0))), iter(f2([Q(v) for v in x2], zero=Q(0)))
+    g1, g2 = [], []
+    while len(g1) < L or len(g2) < L:
+      for _ in range(2 if order == "two-one" else 1):
+        if len(g1) < L: g1.append(Q(next(o1)).f)
+      if len(g2) < L: g2.append(Q(next(o2)).f)
+  except Exception as exc:
+    return bad("filter:alive:exception:" + type(exc).__name__, "two runs alive together raised", None, str(exc)[:200], True)
+  if g1 != ref(b, a, x1) or g2 != ref(b2, a, x2):
+    return bad("filter:alive", "two filter runs alive together and consumed alternately must each follow their own "
+               "difference equation", {"y1": [str(v) for v in ref(b, a, x1)[:5]], "y2": [str(v) for v in ref(b2, a, x2)[:5]]},
+               {"y1": [str(v) for v in g1[:5]], "y2": [str(v) for v in g2[:5]]}, True)
+  return R(None, True, (who, order))
+
+
 KINDS = OrderedDict([
   ("full", Kind(gen_full, run_filter, chunk=400,
                 rule="all coefficient vectors up to the length bound; symbolic input, zero and memory")),
@@ -473,4 +520,5 @@ KINDS = OrderedDict([
   ("call-routes", Kind(gen_routes, run_routes, chunk=1,
                        rule="each function with every documented parameter set: all positional / all keyword / every split must agree")),
   ("long", Kind(gen_long, run_long, chunk=2, rule="filter shapes (incl. delays 17 and 25) x input lengths 64, 65, 128, 129, 300 (1500) x input kind, exact")),
+  ("alive-together", Kind(gen_alive, run_alive, chunk=4, rule="two runs (same object / equal filter / other filter of the same shape) consumed alternately")),
 ])
